@@ -4,6 +4,7 @@
 -/
 import Rsactor.Exec
 import Rsactor.Tables
+import Rsactor.Monitor
 
 open Rsactor Rsactor.Model Rsactor.Exec
 
@@ -30,9 +31,9 @@ def showOutcome : Outcome → String
 
 /-- (task key, text); key 0 = actor, 1 = handles/probes, oid+2 = client -/
 def showEv (s : Sys) : Ev → Nat × String
-  | .issued oid op t => (oid + 2, s!"C{oid} issued {showOp op}" ++ (match t with | some d => s!" timeout={d}" | none => ""))
+  | .issued oid op t a => (oid + 2, s!"C{oid} issued {showOp op}" ++ (match t with | some d => s!" timeout={d}" | none => "") ++ s!" @{a}")
   | .accepted oid idx => (oid + 2, s!"C{oid} accepted idx={idx}")
-  | .ret oid r => (oid + 2, s!"C{oid} ret {showRes r}")
+  | .ret oid r a => (oid + 2, s!"C{oid} ret {showRes r} @{a}")
   | .dead oid w => (oid + 2, s!"C{oid} dead {showReason w} op={showOp (s.spec oid).kind}")
   | .startEnd o => (0, s!"A startEnd {showSOut o}")
   | .termConsumed => (0, "")
@@ -46,6 +47,7 @@ def showEv (s : Sys) : Ev → Nat × String
   | .stopEnd o => (0, s!"A stopEnd {showSOut o}")
   | .joined o => (0, s!"A joined {showOutcome o}")
   | .handleNew h st => (1, s!"H new {h} strong={st}")
+  | .handleDrop h => (1, s!"H drop {h}")
   | .upgradeFailed h => (1, s!"H upgradeFailed {h}")
   | .probeAlive h b => (1, s!"H alive {h} {b}")
 
@@ -107,6 +109,133 @@ def parseSpawn (ws : List String) : Option Sys := do
     | _ => none
   if cap = 0 then none else some (init cap sc)
 
+
+/-! ### monitor mode: evaluate the `Monitor` predicates on real traces -/
+
+def parseHook (w : String) : Option Hook :=
+  if w == "start" then some .start
+  else if w.startsWith "stop:" then (match (w.drop 5).toString with | "true" => some (.stop true) | "false" => some (.stop false) | _ => none)
+  else if w.startsWith "h" then ((w.drop 1).toString.toNat?).map .handler
+  else if w.startsWith "r" then ((w.drop 1).toString.toNat?).map .run
+  else none
+
+def parseHooks (w : String) : Option (Option (List Hook)) :=
+  if w == "none" then some none
+  else if w.startsWith "[" && w.endsWith "]" then
+    let inner := ((w.drop 1).toString.dropEnd 1).toString
+    if inner == "" then some (some []) else ((inner.splitOn ",").mapM parseHook).map some
+  else none
+
+def parseBool : String → Option Bool | "true" => some true | "false" => some false | _ => none
+
+def parsePhase : String → Option Extracted.FailurePhase
+  | "OnStart" => some .OnStart | "OnRun" => some .OnRun | "OnStop" => some .OnStop
+  | "OnRunThenOnStop" => some .OnRunThenOnStop | _ => none
+
+def parseErr : String → Option ErrSrc | "start" => some .start | "run" => some .run | "stop" => some .stop | _ => none
+
+def field (ws : List String) (k : String) : Option String :=
+  ws.findSome? fun w => match kv w with | some (k', v) => if k' == k then some v else none | none => none
+
+def parseOutcome (ws : List String) : Option Outcome :=
+  match ws with
+  | ["panic"] => some none
+  | "completed" :: rest => do
+    let k ← (field rest "killed").bind parseBool
+    let a ← (field rest "actor").bind parseHooks
+    let a ← a
+    some (some (.Completed a k))
+  | "failed" :: rest => do
+    let k ← (field rest "killed").bind parseBool
+    let a ← (field rest "actor").bind parseHooks
+    let p ← (field rest "phase").bind parsePhase
+    let e ← (field rest "err").bind parseErr
+    some (some (.Failed a e p k))
+  | _ => none
+
+def parseRes (w : String) : Option Res :=
+  match w with
+  | "ok" => some .ok | "send" => some .send | "timeout" => some .timeout | "receive" => some .receive
+  | _ => if w.startsWith "reply:" then ((w.drop 6).toString.toNat?).map .reply else none
+
+def parseAt (w : String) : Option Nat := if w.startsWith "@" then (w.drop 1).toString.toNat? else none
+
+def parseOpKind : String → Option OpKind
+  | "tell" => some .tell | "ask" => some .ask | "stop" => some .stop | "kill" => some .kill | _ => none
+
+def parseReason : String → Option Reason
+  | "actor_stopped" => some .actorStopped | "timeout" => some .timeout | "reply_dropped" => some .replyDropped | _ => none
+
+def parseEv (ws : List String) : Option Ev :=
+  match ws with
+  | ["A", "startEnd", o] => (parseSOut o).map .startEnd
+  | ["A", "handlerStart", m] => m.toNat?.map .handlerStart
+  | ["A", "handlerEnd", m, o] => do some (.handlerEnd (← m.toNat?) (← parseHOut o))
+  | ["A", "tellResult", m] => m.toNat?.map .tellResult
+  | ["A", "runPoll", k] => k.toNat?.map .runPoll
+  | ["A", "runEnd", k, o] => do
+    let o ← match o with | "cont" => some ROut.cont | "disable" => some .disable | "err" => some .err | "panic" => some .panic | _ => none
+    some (.runEnd (← k.toNat?) o)
+  | ["A", "stopStart", k] => ((kv k).bind fun p => parseBool p.2).map .stopStart
+  | ["A", "stopEnd", o] => (parseSOut o).map .stopEnd
+  | "A" :: "joined" :: rest => (parseOutcome rest).map .joined
+  | ["H", "new", h, st] => do some (.handleNew (← h.toNat?) (← (kv st).bind fun p => parseBool p.2))
+  | ["H", "drop", h] => h.toNat?.map .handleDrop
+  | ["H", "upgradeFailed", h] => h.toNat?.map .upgradeFailed
+  | ["H", "alive", h, b] => do some (.probeAlive (← h.toNat?) (← parseBool b))
+  | c :: rest =>
+    if c.startsWith "C" then do
+      let oid ← (c.drop 1).toString.toNat?
+      match rest with
+      | ["issued", k, a] => some (.issued oid (← parseOpKind k) none (← parseAt a))
+      | ["issued", k, t, a] => some (.issued oid (← parseOpKind k) (← (kv t).bind fun p => p.2.toNat?) (← parseAt a))
+      | ["accepted", i] => some (.accepted oid (← (kv i).bind fun p => p.2.toNat?))
+      | ["ret", r, a] => some (.ret oid (← parseRes r) (← parseAt a))
+      | "dead" :: w :: _ => some (.dead oid (← parseReason w))
+      | _ => none
+    else none
+  | [] => none
+
+def monitorsFor (names : List String) (settled : Bool) : List (String × (Monitor.Trace → Bool)) :=
+  let all : List (String × (Monitor.Trace → Bool)) :=
+    [("C01", Monitor.C01.ok), ("C02", Monitor.C02.ok), ("C03", Monitor.C03.ok), ("C04", Monitor.C04.ok),
+     ("C05", Monitor.C05.ok), ("C06", Monitor.C06.ok),
+     ("C07", if settled then Monitor.C07.okSettled else Monitor.C07.ok),
+     ("C08", Monitor.C08.ok), ("C09", Monitor.C09.ok), ("C10", Monitor.C10.ok), ("C11", Monitor.C11.ok),
+     ("C13", Monitor.C13.ok)]
+  all.filter fun p => names.contains p.1
+
+partial def monitorLoop (h : IO.FS.Stream) (names : List String) (cur : Option (String × Bool × Nat × List Ev))
+    (ntr nfail nev : Nat) : IO Unit := do
+  let line ← h.getLine
+  if line.isEmpty then
+    IO.println s!"monitor-summary traces={ntr} events={nev} fails={nfail}"
+    return ()
+  let ws := words line
+  match ws, cur with
+  | "trace" :: name :: rest, _ => monitorLoop h names (some (name, rest.contains "settled", 0, [])) ntr nfail nev
+  | "spawn" :: rest, some (name, st, _, evs) =>
+    let cap := ((field rest "cap").bind (·.toNat?)).getD 0
+    monitorLoop h names (some (name, st, cap, evs)) ntr nfail nev
+  | ["endtrace"], some (name, st, cap, evs) =>
+    let t : Monitor.Trace := { cap, ev := evs.reverse }
+    let mut nf := nfail
+    for (mn, f) in monitorsFor names st do
+      if !(f t) then
+        IO.println s!"FAIL {mn} {name}"
+        nf := nf + 1
+    monitorLoop h names none (ntr + 1) nf (nev + evs.length)
+  | [], _ => monitorLoop h names cur ntr nfail nev
+  | w :: _, some (name, st, cap, evs) =>
+    if w == ">" || w == "--" || w == "!" then monitorLoop h names cur ntr nfail nev
+    else
+      match parseEv ws with
+      | some e => monitorLoop h names (some (name, st, cap, e :: evs)) ntr nfail nev
+      | none =>
+        IO.println s!"PARSE-ERROR {name}: {line.trimAscii.toString}"
+        monitorLoop h names cur ntr (nfail + 1) nev
+  | _, none => monitorLoop h names cur ntr nfail nev
+
 partial def loop (h : IO.FS.Stream) (st : Option Sys) : IO Unit := do
   let line ← h.getLine
   if line.isEmpty then return ()
@@ -125,6 +254,7 @@ partial def loop (h : IO.FS.Stream) (st : Option Sys) : IO Unit := do
       loop h (some s1)
     | none => IO.println "! bad-spawn"; loop h none
   | "tables" :: rest => Rsactor.Tables.run rest; loop h st
+  | "monitor" :: names => monitorLoop h ((names.map (·.splitOn ",")).flatten) none 0 0 0
   | _ =>
     match st with
     | none => IO.println "! no-actor"; loop h st
